@@ -212,3 +212,6 @@ def run(ctx):
     # contradicting peers are banned: ban_peer reachable from the `check_points[index] != last_check_point` true edge
     bans = P.call_sites(F, lambda k, t: k.endswith('CKBProtocolContext>::ban_peer'))
     ctx.floor('C07.r5', 'ban_peer in finalize_check_points', len(bans), 1)
+    # reviewed reference of the checker functions' decision structure (engine/census.py)
+    from rules import census_fns
+    census_fns.run(ctx, 'C07')
